@@ -122,7 +122,7 @@ class C19(core.Prop):
                       "after every move)")
     rule = ("exhaustive enumeration of the scheduler's choice points: every sequence of {route next message to a connection, run one loop iteration, "
             "complete a connection's pending I/O} up to a depth, for bursts of 1-3 messages on 1-2 connections of each transport (quick) / 1-4 on 1-3 "
-            "(thorough), including one connection whose I/O never completes; only maximal sequences are kept (every prefix is observed move by move); "
+            "(thorough), including one connection whose I/O never completes, every twelfth schedule also with messages longer than 64 KiB and with byte-identical messages; only maximal sequences are kept (every prefix is observed move by move); "
             "non-trivial = schedule with at least two messages routed to one connection; distinct by (transports, moves)")
     assumptions = ["the asyncio runtime (FIFO ready queue, Lock fairness, future wake-ups) is modelled, validated by this exploration, not verified",
                    "a TTY write reaches the stream when its awaitable completes (thread-pool completion order is the environment's choice)"]
@@ -212,6 +212,9 @@ class C19(core.Prop):
                 if not ok:
                     return "order: connection %d (%s) holds bytes that are not a whole-message prefix of what was routed to it, after %s" % (
                         cn, c["kinds"][cn], c["moves"][:i + 1])
+                if st["nready_after"] == 0 and not st["pending"][cn] and text != "".join(msgs):
+                    return "complete: nothing is ready to run and connection %d (%s) has no I/O pending, yet only %d of the %d characters of the %d messages routed to it are out, after %s" % (
+                        cn, c["kinds"][cn], len(text), len("".join(msgs)), len(msgs), c["moves"][:i + 1])
         # a stalled connection delays only itself: finish everything else and look
         return None
 
